@@ -68,6 +68,15 @@ pub fn standard_plan(tier: Tier, scale: u64) -> Plan {
     }
 }
 
+/// For cheap oracles: the en-passant family with one enemy slider anywhere (every rank / file /
+/// diagonal exposure of the capturing side's king), with children, also in the quick tier.
+pub fn with_ep_slider_family(mut plan: Plan, tier: Tier) -> Plan {
+    if tier == Tier::Quick {
+        plan.families.push((Box::new(EpFamily { extra: Extra::EnemySlider }), 1));
+    }
+    plan
+}
+
 pub fn krk_closure() -> (String, Vec<Box<dyn Family>>) {
     (
         "KRK (either colour's rook) closure".into(),
@@ -100,15 +109,14 @@ pub fn run_plan<O: PosOracle>(run: &Arc<Run>, oracle: &Arc<O>, plan: &Plan) {
     // ---- trees
     let mut by_depth: BTreeMap<u8, Vec<RefPos>> = BTreeMap::new();
     let mut nroots = 0;
-    for r in roots() {
-        if let Some(g) = &plan.root_groups {
-            if !g.contains(&r.group) {
-                continue;
-            }
+    {
+        use rayon::prelude::*;
+        let rs: Vec<Root> = roots().into_iter().filter(|r| plan.root_groups.as_ref().map(|g| g.contains(&r.group)).unwrap_or(true)).collect();
+        let ds: Vec<u8> = rs.par_iter().map(|r| depth_for(&r.pos, plan.tree_budget, plan.depth_cap)).collect();
+        for (r, d) in rs.iter().zip(ds) {
+            by_depth.entry(d).or_default().push(r.pos);
+            nroots += 1;
         }
-        let d = depth_for(&r.pos, plan.tree_budget, plan.depth_cap);
-        by_depth.entry(d).or_default().push(r.pos);
-        nroots += 1;
     }
     let mut tree_notes = vec![];
     for (d, rs) in by_depth.iter() {
